@@ -105,7 +105,10 @@ pub fn create_object_constructor(interp: &mut Interpreter) -> JsObjectRef {
     interp
         .object_prototype
         .borrow_mut()
-        .set_property(constructor_key, JsValue::Object(constructor.clone()));
+        .define_property(
+            constructor_key,
+            crate::value::Property::with_attributes(JsValue::Object(constructor.clone()), true, false, true),
+        );
 
     constructor
 }
